@@ -109,9 +109,11 @@ func (s *segment) GetDataFamilies(timeRange timeutil.TimeRange) []DataFamily {
 	var result []DataFamily
 	calc := s.interval.Calculator()
 
+	// NOTE: time range maybe starts/ends in other segment, family number(day of month/month of year) of
+	// those timestamps cannot be combined with base time of this segment, need use family time of timestamp.
 	familyQueryTimeRange := timeutil.TimeRange{
-		Start: calc.CalcFamilyStartTime(s.baseTime, calc.CalcFamily(timeRange.Start, s.baseTime)),
-		End:   calc.CalcFamilyStartTime(s.baseTime, calc.CalcFamily(timeRange.End, s.baseTime)),
+		Start: calc.CalcFamilyTime(timeRange.Start),
+		End:   calc.CalcFamilyTime(timeRange.End),
 	}
 	familyNames := s.kvStore.ListFamilyNames()
 
